@@ -22,7 +22,7 @@ TRUSTED = [
     "(name index -> file; the open stream follows the file, not the name); the only OS error is ENOENT",
     "not modelled: external truncation of, or writes by others into, the live file (a 'wb' stream would leave a hole); "
     "disk-full and permission errors; SyslogHandler; BoundIO (C08)",
-    "the rotation is exercised at the handler level (L1); the same handlers behind a child's stdout in the daemon are not driven here",
+    "the handlers are driven directly and behind a real POutputDispatcher (stdout and stderr logs, removelogs/reopenlogs); a whole daemon run with a forked child is not part of this check",
 ]
 ASSUMPTIONS = [
     "one handler per log file (supervisor never opens two handlers on the same path)",
@@ -30,7 +30,7 @@ ASSUMPTIONS = [
 ]
 RULE = ("cases = (rotating?, maxbytes, backups, op sequence); maxbytes in {0,1,2,3,5,8,16,40}, backups in {0,1,2,3,5}; "
         "write sizes 0, 1, maxbytes-1, maxbytes, maxbytes+1, 2*maxbytes(+1) and small random; four op mixes: writes only, "
-        "+reopen, +clear, +external remove/replace of any name index 0..backups+1; payload bytes are a running counter so that "
+        "+reopen, +clear, +external remove/replace of any name index 0..backups+1; about 30% of the random cases go through a real POutputDispatcher (child stdout/stderr log); payload bytes are a running counter so that "
         "file contents identify their place in the history; non-trivial = at least one rollover or clear or external op happened; "
         "distinct = distinct (config, op list)")
 
@@ -117,6 +117,54 @@ class Real:
 
     def close(self):
         self.logger.close()
+
+
+class RealL2(Real):
+    """the same handlers behind a real POutputDispatcher (a child's stdout or stderr log): chunks arrive through
+    handle_read_event(), clearProcessLogs -> removelogs(), SIGUSR2 -> reopenlogs()"""
+    def __init__(self, root, rotating, maxbytes, backups, channel='stdout'):
+        from supervisor import loggers, events
+        from supervisor.dispatchers import POutputDispatcher
+        from supervisor.tests.base import DummyOptions, DummyProcess, DummyPConfig
+        os.makedirs(root)
+        self.root = root
+        self.path = os.path.join(root, 'log')
+        self.text = False
+        options = DummyOptions()
+        options.getLogger = loggers.getLogger          # the real logger factory (ServerOptions.getLogger)
+        kw = {channel + '_logfile': self.path, channel + '_logfile_maxbytes': maxbytes if rotating else 0,
+              channel + '_logfile_backups': backups}
+        config = DummyPConfig(options, 'proc', '/bin/proc', **kw)
+        self.options = options
+        self.disp = POutputDispatcher(DummyProcess(config),
+                                      events.ProcessCommunicationStdoutEvent if channel == 'stdout'
+                                      else events.ProcessCommunicationStderrEvent, 0)
+        self.logger = self.disp.normallog
+
+    def op(self, o):
+        if o[0] not in ('write', 'clear', 'reopen'):
+            return Real.op(self, o)
+        err = 'ok'
+        saved = sys.stderr
+        sys.stderr = cap = io.StringIO()
+        try:
+            try:
+                if o[0] == 'write':
+                    self.options.readfd_result = o[1]
+                    self.disp.handle_read_event()
+                elif o[0] == 'clear':
+                    self.disp.removelogs()
+                else:
+                    self.disp.reopenlogs()
+            except ValueError:
+                err = 'err closedStream'
+            except OSError:
+                err = 'err osError'
+        finally:
+            sys.stderr = saved
+        if cap.getvalue():
+            err += ' swallowed-exception'
+        return err
 
 
 def op_line(o):
@@ -270,8 +318,13 @@ class Runner:
         ctx = self.ctx
         self.n += 1
         show = max(cfg['backups'], 0) + 2
-        real = Real(os.path.join(tempfile.mkdtemp(dir=ctx.scratch), 'd'), cfg['rotating'], cfg['maxbytes'], cfg['backups'],
-                    text=cfg.get('text', False), direct=cfg.get('direct', False))
+        if cfg.get('l2'):
+            real = RealL2(os.path.join(tempfile.mkdtemp(dir=ctx.scratch), 'd'), cfg['rotating'], cfg['maxbytes'], cfg['backups'],
+                          channel=cfg['l2'])
+            ctx.count('through-dispatcher:' + cfg['l2'])
+        else:
+            real = Real(os.path.join(tempfile.mkdtemp(dir=ctx.scratch), 'd'), cfg['rotating'], cfg['maxbytes'], cfg['backups'],
+                        text=cfg.get('text', False), direct=cfg.get('direct', False))
         mon = Monitor(ctx, cfg, ops)
         lines = []
         nontrivial = False
@@ -323,6 +376,9 @@ def gen_case(rng, mix):
     text = mix != 'ext' and mb >= 8 and rng.random() < 0.15
     if text:
         cfg['text'] = True
+    l2 = not text and not cfg.get('direct') and rng.random() < 0.3
+    if l2:
+        cfg['l2'] = rng.choice(['stdout', 'stderr'])      # the handlers behind a child's output dispatcher
     pay = Payload()
     ops = []
     base = mb or 6
@@ -334,7 +390,7 @@ def gen_case(rng, mix):
                 ops.append(('write', ('INFO ' + m + '\n').encode()))
             else:
                 sz = rng.choice([0, 1, 1, 2, base - 1, base, base + 1, 2 * base, 2 * base + 1, rng.randrange(0, base + 3)])
-                ops.append(('write', pay.take(max(sz, 0))))
+                ops.append(('write', pay.take(max(sz, 1 if l2 else 0))))   # an empty read is EOF for a dispatcher
         elif r < 0.72:
             ops.append(('reopen',))
         elif r < 0.8:
@@ -372,6 +428,10 @@ CORPUS = [
     ({'rotating': True, 'maxbytes': 5, 'backups': 3}, [W('abcde'), W('fghij'), W('klmno'), ('extremove', 2), W('pqrst'), W('uvwxy'), ('extremove', 0), W('12'), W('34567'), W('8')]),
     ({'rotating': True, 'maxbytes': 5, 'backups': 2}, [W('abc'), ('extreplace', 0, b'XX'), W('de'), W('f'), ('reopen',), W('gh'), W('i')]),
     ({'rotating': True, 'maxbytes': 3, 'backups': 1}, [W('abc'), ('extreplace', 2, b'ZZZZ'), W('def'), ('extreplace', 1, b''), W('ghi')]),
+    # through a child's output dispatcher: chunks, clearProcessLogs (removelogs), SIGUSR2 (reopenlogs)
+    ({'rotating': True, 'maxbytes': 6, 'backups': 2, 'l2': 'stdout'}, [W('abcd'), W('efgh'), ('clear',), W('ijklmnop'), ('reopen',), W('q'), ('extremove', 0), W('rs'), ('reopen',), W('tuvwxyz')]),
+    ({'rotating': True, 'maxbytes': 4, 'backups': 1, 'l2': 'stderr'}, [W('abc'), W('defgh'), W('i'), ('reopen',), W('jkl'), ('clear',), W('m')]),
+    ({'rotating': False, 'maxbytes': 0, 'backups': 2, 'l2': 'stdout'}, [W('abc'), W('d' * 30), ('reopen',), W('e'), ('clear',), W('f')]),
     # activity-log style formatting (text message, encoded by the handler)
     ({'rotating': True, 'maxbytes': 16, 'backups': 1, 'text': True}, [W('INFO hello\n'), W('INFO world\n'), W('INFO \n')]),
 ]
@@ -411,7 +471,7 @@ def replay(ctx, data):
 TECHNIQUE = ("Lean 4 invariants by induction over operation sequences on a model of FileHandler/RotatingFileHandler over an "
              "abstract file system whose comparisons, loop bounds, name-index arithmetic, errno tests and open modes are "
              "regenerated from loggers.py; differential correspondence against the real handlers in a scratch directory")
-LEVEL_TEXT = ("files_bounded, suffix_no_gap, segments_ordered, backups_full, live_short, backups0_truncates, maxbytes0_never and "
+LEVEL_TEXT = ("files_bounded, suffix_no_gap, segments_ordered (all five operation kinds), backups_full, live_short, backups0_truncates, maxbytes0_never and "
               "clear_reopen_safe are proved for every operation sequence, every maxbytes/backups and every payload; the model is "
               "run against the real handlers on a regression corpus, all short write sequences around maxbytes and random "
               "interleavings with clears, reopens and external removals/replacements")
